@@ -93,4 +93,31 @@ pub fn run(ctx: &mut Ctx) {
         let b = s.into_bytes();
         ctx.emit(&format!("canon {}", hex(&b)), || run_one(&b));
     }
+    // walks across the component-stack capacity: climb to 57..63 components, then a random
+    // sequence of names and ".." that crosses depth 60 in both directions (the inline stack's
+    // spill boundary), sometimes unwinding all the way down
+    let n = if ctx.thorough() { 40_000 } else { 4_000 };
+    for _ in 0..n {
+        let mut s = String::new();
+        if ctx.rng.chance(1, 4) { s.push('/'); }
+        let start = ctx.rng.range(57, 63);
+        for _ in 0..start {
+            s.push_str(names[ctx.rng.below(names.len())]);
+            s.push('/');
+        }
+        let steps = ctx.rng.range(1, 24);
+        let mut depth = start as isize;
+        for _ in 0..steps {
+            let up = if depth > 61 { ctx.rng.chance(2, 3) } else if depth < 59 { ctx.rng.chance(1, 3) } else { ctx.rng.chance(1, 2) };
+            if up { s.push_str(".."); depth -= 1; } else { s.push_str(names[ctx.rng.below(names.len())]); depth += 1; }
+            s.push(*ctx.rng.pick(&['/', '/', '\\']));
+        }
+        if ctx.rng.chance(1, 5) {
+            for _ in 0..ctx.rng.range(1, 70) { s.push_str("../"); }
+        }
+        if ctx.rng.chance(1, 2) { s.push_str(names[ctx.rng.below(names.len())]); }
+        ctx.count("cap_walk");
+        let b = s.into_bytes();
+        ctx.emit(&format!("canon {}", hex(&b)), || run_one(&b));
+    }
 }
